@@ -76,7 +76,7 @@ def finish(meta, src, name):
     d = V / 'harmless' / name
     d.mkdir(parents=True, exist_ok=True)
     for f in ('patch.diff', 'notes.md'):
-        if (src / f).exists():
+        if (src / f).exists() and (src / f).resolve() != (d / f).resolve():
             shutil.copy(src / f, d / f)
     (d / 'meta.json').write_text(json.dumps(meta, indent=1))
     print(name, 'confirmed_harmless=%s' % meta.get('confirmed_harmless'), 'false_alarms=%s' % meta.get('false_alarms'))
